@@ -16,8 +16,7 @@
       `json_data_to_table (table_to_json_data t)` is the table again: same name, destinations, column order,
       units and values (`Spec.observe`).  `nat_not_roundtrip` shows why missing datetimes are excluded.
 
-  The JSON *text* trip (`json.dumps` / `json.loads`) is CPython's json module — trusted base, the identity on
-  `JVal` without NaN; the harness samples that law on every case.
+  The JSON *text* trip is modelled (Model/JsonText.lean) and proved in §7: `loads_dumps`, `json_roundtrip_through_text`.
 -/
 import PdtModel.Model.Json
 import PdtModel.Model.JsonText
@@ -139,7 +138,7 @@ theorem noNaN_toJson : ∀ v : PVal, anyNum isNaN (toJson v) = false
   | .ndarray xs => by simp [toJson, anyNum, noNaN_toJsonList xs]
   | .datetime t => by by_cases h : t = NaT <;> simp [toJson, anyNum, h]
   | .na => by simp [toJson, anyNum]
-  | .npscalar => by simp [toJson, anyNum]
+  | .npscalar v => by simp [toJson, noNaN_toJson v]
   | .other => by simp [toJson, anyNum]
 theorem noNaN_toJsonList : ∀ xs : List PVal, anyNumList isNaN (toJsonList xs) = false
   | [] => by simp [toJsonList, anyNumList]
@@ -962,8 +961,12 @@ example : toJsonSerializable (.dict [("a".toList, .f64arr ["nan".toList, "1.5".t
     .ok (.obj [("a".toList, .arr [.null, .num "1.5".toList])]) := rfl
 
 /-- …and the failures are the modelled ones -/
-example : toJsonSerializable (.list [.float "1.0".toList, .npscalar]) = .error .indexError ∧
-    toJsonSerializable (.list [.other, .npscalar]) = .error notImplemented := ⟨rfl, rfl⟩
+example : toJsonSerializable (.list [.float "1.0".toList, .other]) = .error notImplemented ∧
+    toJsonSerializable (.list [.npscalar .other, .float "1.0".toList]) = .error notImplemented := ⟨rfl, rfl⟩
+
+/-- a numpy scalar (an element of a pandas nullable column) converts as its Python value; a NaN inside becomes null -/
+example : toJsonSerializable (.list [.npscalar (.int 3), .npscalar (.float "nan".toList), .na, .npscalar (.bool true)]) =
+    .ok (.arr [.int 3, .null, .null, .bool true]) := rfl
 example : Codec exampleExt exampleFi exampleTable := by decide
 
 /-- the model really computes the round trip on the example (not only by the theorem) -/
